@@ -233,7 +233,7 @@ def check_C12(res, ctx):
            "value was written for that key, no panic; the byte-exact model must predict the same outcome"
 
 
-def crash_family(res, ctx, tag, kinds, n_quick, n_thorough, io_mix=(0, 0, 0, 0, 0, 0, 0, 1), cuts_quick="few", cuts_thorough="all"):
+def crash_family(res, ctx, tag, kinds, n_quick, n_thorough, io_mix=(0, 0, 0, 0, 0, 0, 0, 1), cuts_quick="few", cuts_thorough="all", level2=False):
     from . import crashcheck
     n = n_quick if ctx.quick else n_thorough
     items = []
@@ -250,7 +250,7 @@ def crash_family(res, ctx, tag, kinds, n_quick, n_thorough, io_mix=(0, 0, 0, 0, 
     def job(it):
         i, kind, io, ops, cfg = it
         recs, err, rc = crashcheck.run_crash(ctx, ops, mode="io", cuts=cuts_quick if ctx.quick else cuts_thorough,
-                                             dumpfiles=True)
+                                             dumpfiles=True, level2=level2, timeout=1800)
         return recs, err, rc
     results = core.parallel_map(job, items, workers=8)
     for (i, kind, io, ops, cfg), (recs, err, rc) in zip(items, results):
@@ -372,6 +372,157 @@ def check_C10(res, ctx):
            "prefix and direction, values by captured position; oracle: abstract cursor over the sorted snapshot"
 
 
+def check_C05(res, ctx):
+    n = 30 if ctx.quick else 500
+    for i in range(n):
+        rng = rng_for(ctx.seed, "C05", i)
+        cfg = engine.rand_cfg(rng, io=(1 if i % 7 == 6 else 0), fs=rng.choice([4096, 4096, 20000, 65536]))
+        g = engine.Gen(rng, cfg, nkeys=rng.choice([3, 6]), weights={"batch": 40, "put": 25, "del": 6, "get": 4, "reopen": 1, "merge": 1,
+                                                                    "keys": 0, "fold": 0, "stat": 0}, max_val=rng.choice([600, 3000, 30000]))
+        ops = g.history(40 if ctx.quick else 80)
+        res.count("fs%d" % cfg["fs"])
+        engine_history_check(res, ctx, "batch history %d" % i, ops)
+        if i < 1:
+            res.sample({"ops_head": ops[:25]})
+    return "batch-heavy histories (0..20 staged ops per batch, repeated put/delete/put on one key, reads of staged, deleted and base values, " \
+           "base values in rotated files via small DataFileSize, batches that overflow the file mid-way, use after commit, empty commits); " \
+           "oracle: layered reference map; the byte-exact model must agree on every result, Stat and file listing"
+
+
+def check_C06(res, ctx):
+    from . import conccheck
+    n = 24 if ctx.quick else 400
+    for i in range(n):
+        rng = rng_for(ctx.seed, "C06", i)
+        cfg = engine.rand_cfg(rng, io=(1 if i % 6 == 5 else 0), fs=rng.choice([4096, 4096, 20000, 65536]))
+        g = engine.Gen(rng, cfg, nkeys=rng.choice([4, 8]), weights={"merge": 8, "reopen": 8, "batch": 8, "put": 30, "del": 8, "keys": 0, "fold": 0},
+                       max_val=rng.choice([1000, 3000, 9000]))
+        ops = g.history(60 if ctx.quick else 120)
+        # after every successful merge + adopting restart the merge directory must be gone
+        out_ops = []
+        for op in ops:
+            out_ops.append(op)
+            if op.startswith("open "):
+                out_ops.append("files d-merge")
+                out_ops.append("scanstat")
+        ok = engine_history_check(res, ctx, "merge history %d" % i, out_ops)
+        if i < 1:
+            res.sample({"ops_head": out_ops[:25]})
+    # direct checks on adoption: merge dir gone, no tombstones / sealing records in adopted files
+    for i in range(8 if ctx.quick else 100):
+        rng = rng_for(ctx.seed, "C06a", i)
+        fs = rng.choice([4096, 20000])
+        fs2 = rng.choice([fs, fs, 4096, 65536])
+        cfg = engine.rand_cfg(rng, io=rng.choice([0, 0, 1]), fs=fs)
+        g = engine.Gen(rng, cfg, nkeys=6, weights={"merge": 0, "reopen": 0, "batch": 10, "keys": 0, "fold": 0, "dump": 0, "stat": 0}, max_val=2500)
+        ops = g.history(40)[:-3]
+        cfg2 = dict(cfg, fs=fs2)
+        ops += ["close", engine.open_line("d", cfg2), "active", "merge", "dump", "put 7171 x01", "del 7171", "close", engine.open_line("d", cfg2), "files d-merge", "scanstat", "dump", "close",
+                engine.open_line("d", cfg), "dump", "close"]
+        base = ctx.scratch.fresh()
+        try:
+            outs = run_impl(ops, base)
+        finally:
+            ctx.scratch.drop(base)
+        orc = engine.run_oracle(ops, outs)
+        res.case("\n".join(outs[-12:]), True)
+        j = ops.index("merge")
+        merged = outs[j] == "ok"
+        res.count("merge_ok" if merged else "merge_refused:" + outs[j])
+        if orc.problems:
+            res.violation("adoption run %d: %s" % (i, orc.problems[0][1]), {"ops": ops})
+            continue
+        if merged:
+            a = int(outs[j - 1].split()[1])
+            fm = outs[ops.index("files d-merge")]
+            sc = outs[ops.index("scanstat")]
+            if fm != "files absent":
+                res.violation("adoption run %d: merge directory still present after the adopting restart: %s" % (i, fm), {"ops": ops})
+                continue
+            files = sc.split("files=")[1].split(",") if "files=" in sc else []
+            for f in files:
+                fid, size, recs, fins, nbytes, status = f.split(":")
+                if int(fid) <= a and int(fins) != 0:
+                    res.violation("adoption run %d: adopted file %s still holds batch sealing records: %s" % (i, fid, sc), {"ops": ops})
+        d = diff_model(res, ctx, ops, outs, "adoption run %d" % i)
+        if d is not None:
+            k, x, y = d
+            res.violation("correspondence broke on adoption run %d at `%s`: code=%s model=%s" % (i, ops[k], x[:200], y[:200]),
+                          {"ops": ops[:k + 1], "code": x, "model": y, "correspondence": "engine line protocol"}, no_input=True)
+    conccheck.check_merge_concurrent(res, ctx, rng_for(ctx.seed, "C06c"), [1, 3] if ctx.quick else [1, 2, 3], 6 if ctx.quick else 60)
+    return "histories mixing plain and batch writes, deletes, several merges and restarts, with DataFileSize changed between runs so the merged " \
+           "output needs fewer / equal / more files than the input (Merge may refuse with the id-conflict error); dumps after merge, after the " \
+           "adopting restart and after a second restart against the reference map; merge directory gone; forced schedules pausing Merge inside " \
+           "its scan loop while Puts/Deletes run"
+
+
+def check_C07(res, ctx):
+    crash_family(res, ctx, "C07", ["merge"], 6, 120, io_mix=(0, 0, 0, 0, 0, 0, 0, 0, 0, 0, 0, 1), cuts_quick="none", cuts_thorough="none",
+                 level2=not ctx.quick)
+    return "every I/O event and every crash point (merge phases, each rename / remove / hint move / marker removal / directory removal of the " \
+           "adoption step) of histories with Merge and restarts is a crash image; each image is reopened once and twice and must show exactly the " \
+           "mapping acknowledged before the crash; the model recovers the same image bytes and must agree"
+
+
+def check_C08(res, ctx):
+    from . import conccheck
+    conccheck.check_kv_schedules(res, ctx, [1, 3] if ctx.quick else [1, 2, 3])
+    # free-running clients: live mapping vs restart at quiescence
+    for i in range(2 if ctx.quick else 12):
+        rep, err, rc = conccheck.run_race(ctx, 3 if ctx.quick else 20, [2, 8, 16][i % 3], 1 + i % 3, 0, ctx.seed * 100 + i, race=False)
+        res.evaluations += 1
+        res.count("free_running")
+        if rep is None or rep.get("stuck") or rep.get("panics") or not rep.get("restart_agrees", False):
+            res.violation("free-running clients (run %d): %s" % (i, json.dumps(rep)[:400] if rep else err[-300:]),
+                          {"cmd": "xkv race", "report": rep, "stderr": err[-2000:]})
+        else:
+            res.distinct.add("free%d" % i)
+    return "all two-client schedules on one key for {Put,Delete} x {Put,Delete,Get}: client A paused at each schedule point (after the log append / " \
+           "after Delete's existence check), client B run meanwhile; observed: whether B got through or blocked on the DB mutex, both results, live " \
+           "dump, dump after restart; oracle: live = restart, results explained by a sequential order, no index-update-failed; the interleaving " \
+           "observed must be a run of the Lean step relation under the shape computed from the regenerated lockset table; plus free-running clients"
+
+
+def check_C09(res, ctx):
+    from . import conccheck
+    conccheck.check_listkeys(res, ctx, [1, 2, 3])
+    conccheck.check_kv_schedules(res, ctx, [1])
+    runs = [(1, 0), (2, 0), (3, 0)] if ctx.quick else [(1, 0), (2, 0), (3, 0), (1, 1), (3, 1)]
+    secs = 12 if ctx.quick else 120
+    results = core.parallel_map(lambda x: conccheck.run_race(ctx, secs, 8, x[0], x[1], ctx.seed, race=True), runs, workers=3)
+    third_party = 0
+    for (idx, io), (rep, err, rc) in zip(runs, results):
+        res.evaluations += 1
+        res.count("race_runs")
+        name = "race-detector stress (index %d, io %d, 8 goroutines, %ds)" % (idx, io, secs)
+        if rep is None:
+            res.violation("%s died: %s" % (name, err[-400:]), {"cmd": "xkv-race race", "stderr": err[-3000:]})
+            continue
+        for k, v in rep.get("counts", {}).items():
+            res.count("race_op:" + k, v)
+        reports = conccheck.race_reports(err)
+        own = [r for r in reports if r["in_xixi"]]
+        third_party += len(reports) - len(own)
+        if own:
+            res.violation("%s: %d data race report(s) involving xixi-kv code, first: %s" % (name, len(own), own[0]["frames"][:4]),
+                          {"cmd": "xkv-race race <dir> %d 8 %d %d %d" % (secs, idx, io, ctx.seed), "reports": own[:3]})
+        if rep.get("panics"):
+            res.violation("%s: recovered panics %s" % (name, rep["panics"]), {"report": rep})
+        if rep.get("stuck"):
+            res.violation("%s: goroutines stuck (deadlock?)" % name, {"report": {k: v for k, v in rep.items() if k != "stacks"}, "stacks": rep.get("stacks", "")[:3000]})
+        if rep.get("errors"):
+            res.violation("%s: individually valid operations returned errors %s" % (name, rep["errors"]), {"report": rep})
+        if not rep.get("stuck") and rep.get("restart_agrees") is False:
+            res.violation("%s: live mapping differs from restart at quiescence" % name, {"report": rep})
+        res.distinct.add("race%d%d:%s" % (idx, io, sorted(rep.get("counts", {}).items())))
+    res.extra["race_reports_only_in_third_party_code"] = third_party
+    res.notes.append("partial by design: the race detector sees only executed schedules; races inside google/btree, huandu/skiplist, mmap-go are counted "
+                     "separately and not attributed to the engine")
+    return "decide obligations on the regenerated lockset table (lock discipline, no re-acquisition, release at return); forced schedules for ListKeys " \
+           "(paused between snapshot and copy) and for racing Put/Delete; -race built stress of 8 goroutines over Put/Get/Delete/ListKeys/Fold/iterators/" \
+           "Stat/Sync/batches/Merge per index type with small files: data-race reports, recovered panics, watchdog, unexpected error classes"
+
+
 CHECKS = {
     "C01": check_C01,
     "C02": check_C02,
@@ -381,6 +532,11 @@ CHECKS = {
     "C04": check_C04,
     "C13": check_C13,
     "C10": check_C10,
+    "C05": check_C05,
+    "C06": check_C06,
+    "C07": check_C07,
+    "C08": check_C08,
+    "C09": check_C09,
 }
 
 ASSUME = {
